@@ -115,11 +115,27 @@ def r2_who_writes_cursor(ctx):
         ctx.ok("reset|unsafe", rs.where(), "Arena::reset is an unsafe fn")
     else:
         ctx.bad("reset|unsafe", rs.where(), "Arena::reset is no longer unsafe: any safe code can invalidate live allocations")
+    reset_sets_its_argument(ctx)
+
+
+def reset_sets_its_argument(ctx):
+    """Arena::reset(to) leaves the watermark at exactly `to` (shared with C02-R4: a watermark below `to` frees live data of
+    the caller - the next allocation overwrites it)."""
+    rs = ctx.need(B + "reset")
+    ctx.touch(rs)
     w = [c for c in rs.calls() if (c.callee or "").split("::")[-1] in ("set", "replace")]
-    if w and sh(ne(rs.deep(w[0].args[1]))) == "to":
+    if w and all(sh(ne(rs.deep(c.args[1]))) == "to" for c in w):
         ctx.ok("reset|to", rs.where(), "offset = to")
     else:
-        ctx.bad("reset|to", rs.where(), "reset does not set the offset to its argument")
+        ctx.bad("reset|to", rs.where(), "reset does not set the offset to its argument (it stores `%s`): a watermark below `to` hands the caller's live bytes just under the mark to the next allocation" % (sh(ne(rs.deep(w[0].args[1])))[:60] if w else "nothing"))
+    dr = ctx.lib.fns.get(D + "reset")
+    if dr is not None:
+        ctx.touch(dr)
+        fw = [c for c in dr.calls() if (c.callee or "") == B + "reset"]
+        if fw and all(sh(ne(dr.deep(c.args[1]))) == "to" for c in fw):
+            ctx.ok("reset|debug-forwards-to", dr.where(), "debug wrapper forwards `to` unchanged")
+        else:
+            ctx.bad("reset|debug-forwards-to", dr.where(), "the debug wrapper of Arena::reset does not forward its argument unchanged")
 
 
 def r3_grow(ctx):
